@@ -752,9 +752,11 @@ def concurrency(ctx, sats, judge, spy, mode, budget, scale=1):
 
     part = [budget]
 
+    found0 = len(ctx.disagreements) if spy else len(ctx.violations)
+
     def go(sat, qs, plan, label, warm=None):
-        if len(ctx.violations) + len(ctx.disagreements) > 25:
-            return                                              # enough evidence; do not pile up
+        if (len(ctx.disagreements) if spy else len(ctx.violations)) - found0 > 25:
+            return                                              # enough evidence from this stage; do not pile up
         if part[0].over():
             return
         r = run_schedule(sat, qs, plan, spy=spy, warm=warm)
